@@ -85,11 +85,12 @@ FAULT_UPLOAD = Suite(
          "directory, plan and observed week order: number of calls made, panic raised, final listing of local/ and "
          "upload/ with content classes and report sums, requests received by the server. Oracles on the "
          "implementation's observations (PROP classes): call-bound (more than 21 n + 6 calls), hang (step budget "
-         "exceeded), panic-escaped (a panic left the exported Run), panic-without-fault (the exported Run recovered a panic "
+         "exceeded), panic-escaped (a panic left the exported Run), fd-leak (the process holds more file descriptors after the run than before), panic-without-fault (the exported Run recovered a panic "
          "although the plan fails no call: C05_run_total allows a panic only after a failed entropy read; states with a "
          "blank mode file - empty or white space only - are generated for this), active-file-touched, deleted-without-report, "
          "counts-duplicated (a file's counts in two reports or twice in one), counts-lost (a count file gone whose "
-         "counts are in no completely written local report although the week had no report before). distinct = "
+         "counts are in no completely written local report although the week had no report before). A watchdog (60 s per case) reports a run that neither "
+         "makes a call nor returns as a hang with its input and ends the harness cleanly. distinct = "
          "distinct case lines; none is trivial")
 
 SPEC = {
